@@ -430,3 +430,8 @@ def replay(payload):
         return 1
     print('replay %s: %s' % (s, why or 'property holds'))
     return 1 if why else 0
+
+
+def canon_rows_only(f):
+    """exponent rows (on the grid) of a Signomial whose coefficients may be symbolic"""
+    return [([Fraction(int(round(a * GRID)), GRID) for a in r], None) for r in np.asarray(f.alpha, dtype=float).tolist()]
